@@ -95,7 +95,7 @@ pub fn run(out: &mut Out, tier: &str, seed: u64, _corpus: Option<&str>) {
                 let straight = (si + fi + ch) % 2 == 0;
                 let layout = ((si + p + fi) % 3) as u8;
                 let what = format!("{w}x{h} {:?} {:?} filter {:?} straight_alpha {straight} layout {layout}", CHANNELS[ch], PRECS[p], filter);
-                out.count(&format!("filter_{:?}", filter)); out.count(&format!("color_{}", ch * 3 + p)); out.count(&format!("layout_{layout}"));
+                out.count(&format!("filter_{:?}", filter)); out.count("oracle_calls"); out.count(&format!("color_{}", ch * 3 + p)); out.count(&format!("layout_{layout}"));
                 // ---- (1) a constant colour (alpha in {1, 0.5, tiny}) stays that colour at every level
                 let alpha_choice = (si + fi) % 4;
                 let constant: Vec<f64> = (0..cnt).map(|c| {
